@@ -60,8 +60,8 @@ CHECKS = {
             "version-less, name not found) and every method once more; an unrelated decoy object "
             "must stay untouched: zero write attempts, failure value, no "
             "exception, and a logged first-error-wins latch are checked on every transition; on "
-            "the healthy object a port exception of any kind (SerialException, OSError, "
-            "RuntimeError) during a non-exempt request must be latched, not escape.",
+            "the healthy object a port exception (SerialException or plain OSError) during a "
+            "non-exempt request must be latched, not escape.",
             "Trusts the fake port/board; connect() faults are left to C15; histories of depth "
             "<= 4 (5 thorough).",
             "DESIGN.md §3 C04"),
